@@ -24,6 +24,7 @@ import (
 	libaudit "github.com/elastic/go-libaudit/v2"
 	"github.com/elastic/go-libaudit/v2/auparse"
 	"github.com/elastic/go-libaudit/v2/vshim/sched"
+	"github.com/elastic/go-libaudit/v2/vshim/vsync"
 	"github.com/elastic/go-libaudit/v2/vshim/vtime"
 
 	"verif/engine/ev"
@@ -67,6 +68,8 @@ type Program struct {
 	CloserStream bool
 	// Wrap: the three sequence numbers straddle the 2^32 roll-over (A = 1, B = 2^32-2, C = 0): B is the OLDEST
 	Wrap bool
+	// LockerStream: the Stream embeds a mutex (it is a sync.Locker) and holds it inside its callbacks
+	LockerStream bool
 	// PanicOnce: the first Stream callback panics; the caller of the API recovers and goes on using the object
 	PanicOnce bool
 }
@@ -89,6 +92,9 @@ func (p Program) String() string {
 	}
 	if p.Wrap {
 		x += " sequences-straddle-2^32"
+	}
+	if p.LockerStream {
+		x += " stream-is-a-sync.Locker"
 	}
 	if p.PanicOnce {
 		x += " first-callback-panics(recovered)"
@@ -348,6 +354,25 @@ func (closerStream) Close() error { return errors.New("sink: close failed") }
 func (closerStream) Flush() error { return errors.New("sink: flush failed") }
 func (closerStream) Sync() error  { return errors.New("sink: sync failed") }
 
+// lockerStream is a sink that is safe for concurrent use the usual way: it embeds a mutex - so it has Lock and Unlock
+// methods, it IS a sync.Locker - and takes it inside its callbacks.
+type lockerStream struct {
+	*harness
+	vsync.Mutex // the scheduler's mutex under exploration (a wait is visible), the real one when free-running
+}
+
+func (l *lockerStream) ReassemblyComplete(msgs []*auparse.AuditMessage) {
+	l.Lock()
+	defer l.Unlock()
+	l.harness.ReassemblyComplete(msgs)
+}
+
+func (l *lockerStream) EventsLost(n int) {
+	l.Lock()
+	defer l.Unlock()
+	l.harness.EventsLost(n)
+}
+
 func newHarness(p Program) *harness {
 	h := &harness{p: p, byPtr: map[*auparse.AuditMessage]*pushed{}}
 	to := 1000 * time.Hour
@@ -357,6 +382,9 @@ func newHarness(p Program) *harness {
 	var st libaudit.Stream = h
 	if p.CloserStream {
 		st = closerStream{h}
+	}
+	if p.LockerStream {
+		st = &lockerStream{harness: h}
 	}
 	r, err := libaudit.NewReassembler(p.MaxInFlight, to, st)
 	if err != nil {
@@ -552,6 +580,12 @@ func programs(tier string) []Program {
 			out = append(out, Program{Threads: ths, MaxInFlight: m, PanicOnce: true})
 		}
 	}
+	// a Stream that is a sync.Locker and locks itself in its callbacks
+	for _, ths := range [][][]int{{{oPushAfin}}, {{oPushAmid, oPushBmid, oClose}}, {{oPushAfin}, {oPushBmid, oMaintain}}, {{oPushAmid, oPushAeoe}, {oClose}}, {{oPushAmid}, {oPushBmid}, {oClose}}} {
+		for _, m := range []int{0, 1} {
+			out = append(out, Program{Threads: ths, MaxInFlight: m, LockerStream: true})
+		}
+	}
 	// Close racing with Close / Push / Maintain on a Stream that also has (failing) Close/Flush/Sync methods
 	for _, ths := range [][][]int{{{oClose}, {oClose}}, {{oPushAmid, oClose}, {oClose}}, {{oPushAmid}, {oMaintain, oClose}}, {{oClose, oClose}, {oPushAfin}}, {{oClose}, {oClose}, {oClose}}} {
 		out = append(out, Program{Threads: ths, MaxInFlight: 1, CloserStream: true})
@@ -685,27 +719,37 @@ func racePass(progs []Program, reps int, seed int64) (iterations int64) {
 			}
 		}
 	}()
-	for _, p := range progs {
+	for pi, p := range progs {
 		cur.Store(p.String())
 		for rep := 0; rep < reps; rep++ {
-			h := newHarness(p)
-			h.free = true
+			// TWO objects at a time: the program's own Reassembler and a second one driven by the NEXT program, all threads of
+			// both released together - objects share nothing, so the detector stays silent whatever the two do
+			hs := []*harness{newHarness(p)}
+			if len(progs) > 1 {
+				hs = append(hs, newHarness(progs[(pi+1)%len(progs)]))
+			}
 			var wg sync.WaitGroup
 			start := make(chan struct{})
-			for _, prog := range p.Threads {
-				prog := prog
-				wg.Add(1)
-				go func() {
-					defer wg.Done()
-					<-start
-					for _, op := range prog {
-						h.do(op, false)
-					}
-				}()
+			for _, h := range hs {
+				h := h
+				h.free = true
+				for _, prog := range h.p.Threads {
+					prog := prog
+					wg.Add(1)
+					go func() {
+						defer wg.Done()
+						<-start
+						for _, op := range prog {
+							h.do(op, false)
+						}
+					}()
+				}
 			}
 			close(start)
 			wg.Wait()
-			h.Finish(nil)
+			for _, h := range hs {
+				h.Finish(nil)
+			}
 			iterations++
 			atomic.AddInt64(&progress, 1)
 		}
@@ -856,7 +900,7 @@ func pass386(run *ev.Run, prop string, progs []Program) {
 	}
 	var sel []Program
 	for i, p := range progs {
-		if len(p.Threads) <= 2 && !p.PileUp && !p.PanicOnce && (i%7 == 0 || p.Timeout > 0 || p.CloserStream || p.Wrap) {
+		if len(p.Threads) <= 2 && !p.PileUp && !p.PanicOnce && (i%7 == 0 || p.Timeout > 0 || p.CloserStream || p.Wrap || p.LockerStream) {
 			sel = append(sel, p)
 		}
 	}
